@@ -1306,7 +1306,7 @@ Proof.
   unfold lokN in L. unfold step. destruct (pc (thr s u)) eqn:Hpc.
   all: try (apply DSame; unfold next_ret; dmatch; reflexivity).
   - (* PSched *)
-    rewrite Hts, Hto by (rewrite Hpc; discriminate).
+    rewrite Hts, Hto by (intros ? ?; try rewrite Hpc; discriminate).
     assert (Hd : dq (fst (match k with
               | KSpawn g | KWake g => let '(e1, T') := finish u (thr s u) (cur (thr s u)) (Zn g) in
                   (set_thr (set_dq s (4 * u + 3 - sfrom s u) (f :: dq s (4 * u + 3 - sfrom s u))) u T', ev u (l_to u) 9 (Zn (4 * u + 3 - sfrom s u)) ++ e1)
@@ -1318,21 +1318,48 @@ Proof.
     match goal with |- dqeff _ ?S' _ _ => assert (E : dq S' d = upd (dq s) (4 * u + 3 - sfrom s u) (f :: dq s (4 * u + 3 - sfrom s u)) d) end.
     { destruct k; dmatch; reflexivity. }
     clear Hd. destruct (Nat.eq_dec d (4 * u + 3 - sfrom s u)) as [->|Hne].
-    + apply (DPush _ _ _ _ f); [rewrite E, upd_same; reflexivity| |right; split; [reflexivity|intros; discriminate]].
+    + apply (DPush _ _ _ _ f); [rewrite E, upd_same; reflexivity| |right; split; [reflexivity|intros ? ? ? ? ? ?; rewrite Hpc; discriminate]].
       unfold held. rewrite Hpc. destruct L as [_ L]. destruct k; try contradiction; try (left; reflexivity).
       destruct L as (Hc & Hc0 & _). rewrite Hc in *. destruct f; [congruence|]. right; left; reflexivity.
     + apply DSame. rewrite E. apply upd_other; auto.
   - (* PN7 *)
-    destruct (dq s (sfrom s u)) as [|y rest] eqn:EF; [apply DSame; reflexivity|]. cbn [fst dq set_thr set_dq].
+    destruct (dq s (sfrom s u)) as [|y rest] eqn:EF; [apply DSame; reflexivity|]. cbn [fst].
     destruct (Nat.eq_dec d (sfrom s u)) as [->|Hne].
-    + apply (DPop _ _ _ _ y k); auto; [rewrite upd_same; exact EF|cbn; rewrite upd_same; reflexivity].
-    + apply DSame. apply upd_other; auto.
-  - (* PN8 *)
-    apply DSame. destruct (Z.eqb (fstt s x) 5); [reflexivity|]. unfold next_ret.
-    destruct k; destruct x; try destruct (Z.eqb st 3); dmatch; reflexivity.
+    + apply (DPop _ _ _ _ y k); auto; cbn [dq thr set_thr set_dq]; rewrite upd_same; auto.
+    + apply DSame. cbn [dq thr set_thr set_dq]. apply upd_other; auto.
   - (* PN9 *)
-    rewrite Hto by (rewrite Hpc; discriminate). cbn [fst dq set_thr set_dq].
+    rewrite Hto by (intros ? ?; try rewrite Hpc; discriminate). cbn [fst].
     destruct (Nat.eq_dec d (4 * u + 3 - sfrom s u)) as [->|Hne].
-    + apply (DPush _ _ _ _ x); [rewrite upd_same; reflexivity|unfold held; rewrite Hpc; left; reflexivity|].
-      right; split; [reflexivity|intros; discriminate].
-    + apply DSame. apply upd_other; auto.
+    + apply (DPush _ _ _ _ x); [cbn [dq set_thr set_dq]; rewrite upd_same; reflexivity|unfold held; rewrite Hpc; left; reflexivity|].
+      right; split; [reflexivity|intros ? ? ? ? ? ?; rewrite Hpc; discriminate].
+    + apply DSame. cbn [dq set_thr set_dq]. apply upd_other; auto.
+  - (* PL1 *)
+    rewrite fst_let2.
+    destruct (lb_effect s u (thr s u) k (2 * (u + 1)) (length (dq s (sfrom s u))) 50 None Hu (Nat.le_refl _))
+      as [[A B]|(dv & x & l & i' & a & b & c & A & B & C & D1 & D2 & D3)].
+    + apply DSame. apply A.
+    + destruct (Nat.eq_dec d dv) as [->|Hne].
+      * apply (DSteal _ _ _ _ x); auto; [rewrite B, upd_same; exact A|]. unfold stolen. rewrite Hpc, C. reflexivity.
+      * apply DSame. rewrite B. apply upd_other; auto.
+  - (* PL2 *)
+    rewrite fst_let2. destruct L as (Hk & Hx & Hi).
+    set (S0 := set_dq s (sfrom s u) (stolen0 :: dq s (sfrom s u))).
+    assert (Hin : In stolen0 (held (thr s u))) by (unfold held; rewrite Hpc; left; reflexivity).
+    assert (Hpush : (sfrom s u = sfrom s u /\ exists k0 i0 a b c, PL2 k i lc rc ms stolen0 = PL2 k0 i0 a b c stolen0)) by eauto 10.
+    destruct (lb_effect S0 u (thr s u) k i (S lc) (ms - 1) (Some (rc - 1)) Hu Hi)
+      as [[A B]|(dv & x & l & i' & a & b & c & A & B & C & D1 & D2 & D3)].
+    + destruct (Nat.eq_dec d (sfrom s u)) as [->|Hne].
+      * apply (DPush _ _ _ _ stolen0); auto. rewrite A. unfold S0; cbn [dq set_dq]. apply upd_same.
+        left. rewrite Hpc. exact Hpush.
+      * apply DSame. rewrite A. unfold S0; cbn [dq set_dq]. apply upd_other; auto.
+    + cbn [nthr S0 set_dq] in D1.
+      destruct (Nat.eq_dec d (sfrom s u)) as [->|Hne].
+      * apply (DPush _ _ _ _ stolen0); auto.
+        -- rewrite B, upd_other by (destruct Hf; lia). unfold S0; cbn [dq set_dq]. apply upd_same.
+        -- left. rewrite Hpc. exact Hpush.
+      * destruct (Nat.eq_dec d dv) as [->|Hne'].
+        -- apply (DSteal _ _ _ _ x); auto.
+           ++ rewrite B, upd_same. unfold S0 in A; cbn [dq set_dq] in A. rewrite upd_other in A by auto. exact A.
+           ++ unfold stolen. rewrite Hpc, C. reflexivity.
+        -- apply DSame. rewrite B, upd_other by auto. unfold S0; cbn [dq set_dq]. apply upd_other; auto.
+Qed.
